@@ -197,6 +197,15 @@ def make_pair(net, variant, rng):
             # between two output epochs
             m = rng.choice([1, 2, 3])
             a["time"]["output_step_sec"] = b["time"]["output_step_sec"] = net["step"] * m
+            # both runs: the first satellite manoeuvres exactly on the step boundary at which run B is split (and once anywhere):
+            # whatever is queued for a boundary has to survive the end of a call
+            start = datetime.fromisoformat(net["start"])
+            tid0 = a["engines"][0]["targets"][0]["id"]
+            for off_ in (k * net["step"], rng.randrange(1, n * net["step"])):
+                ev = {"scope": "agent_propagation", "scope_instance_id": tid0, "start_time": sk.iso(start + timedelta(seconds=off_)), "event_type": "impulse",
+                      "thrust_vector": [0.0, rng.choice([-1, 1]) * 0.004, 0.001], "thrust_frame": rng.choice(["ntw", "eci"]), "planned": rng.random() < 0.5}
+                a["events"].append(copy.deepcopy(ev))
+                b["events"].append(copy.deepcopy(ev))
     elif variant == "schedule_reverse":
         kb["scheduler"] = shimray.make_sched_script(None, default="reverse")
     elif variant == "schedule_random":
